@@ -150,6 +150,116 @@ theorem nthName_holds (name : String) :
       have : i - k = (i - (k + 1)) + 1 := by omega
       rw [this]; simpa using hl'
 
+private theorem spanBackward_nth (name : String) :
+    ∀ (seq : List (List String)) (k0 n j : Nat), 1 ≤ n → nthName name seq k0 n = some j →
+      spanBackward name seq (k0 : Int) (n : Int) = (some (j : Int), 0, true) := by
+  intro seq
+  induction seq with
+  | nil => intro k0 n j hn h; simp [nthName] at h
+  | cons l rest ih =>
+    intro k0 n j hn h
+    unfold nthName at h
+    unfold spanBackward
+    by_cases hc : l.contains name = true
+    · simp only [hc, if_true] at h ⊢
+      by_cases h1 : n ≤ 1
+      · have hn1 : n = 1 := by omega
+        subst hn1
+        simp only [Nat.le_refl, if_true, Option.some.injEq] at h
+        subst h
+        simp
+      · simp only [h1, if_false] at h
+        have hne : ((n : Int) - 1 == 0) = false := by
+          have : (n : Int) - 1 ≠ 0 := by omega
+          simpa using this
+        simp only [hne, Bool.false_eq_true, if_false]
+        have hcast : ((n : Int) - 1) = ((n - 1 : Nat) : Int) := by omega
+        have hk : ((k0 : Int) + 1) = ((k0 + 1 : Nat) : Int) := by omega
+        rw [hcast, hk, ih (k0 + 1) (n - 1) j (by omega) h]
+    · simp only [hc, Bool.false_eq_true, if_false] at h ⊢
+      have hne : ((n : Int) == 0) = false := by
+        have : (n : Int) ≠ 0 := by omega
+        simpa using this
+      simp only [hne, Bool.false_eq_true, if_false]
+      have hk : ((k0 : Int) + 1) = ((k0 + 1 : Nat) : Int) := by omega
+      rw [hk, ih (k0 + 1) n j hn h]
+
+/-- `placement_names`, backward named span (full strength since repair 5e11506): `grid-column: span k name / e` with a
+definite end line (0-based index `ce = e − 1 > 0`): walking back from the line before the end line, the `k`-th line
+called `name` (found `j` steps back) is the start line: the item occupies the tracks `ce − 1 − j … ce − 1`.  The count
+is the span's own `k`, whatever the integer of the end line. -/
+theorem placement_span_named_back (name : String) (lines : List (List String)) (k ce j : Nat) (hk : 1 ≤ k)
+    (hce : 0 < ce) (h : nthName name (pyBackFrom lines ((ce : Int) - 1)) 0 k = some j) :
+    getPlacement (.mk true (some (k : Int)) (some name)) (lineNo ((ce : Int) + 1)) lines =
+      .ok (some ((ce : Int) - 1 - (j : Int), (j : Int) + 1)) := by
+  have hb := spanBackward_nth name _ 0 k j hk h
+  have hk0 : ((k : Int) == 0) = false := by
+    have : (k : Int) ≠ 0 := by omega
+    simpa using this
+  have hcepos : ((ce : Int) > 0) := by omega
+  have hsz1 : ¬ ((ce : Int) - ((ce : Int) - 1 - (j : Int)) < 0) := by omega
+  have hsz2 : ¬ ((ce : Int) - ((ce : Int) - 1 - (j : Int)) = 0) := by omega
+  have hsz3 : (ce : Int) - ((ce : Int) - 1 - (j : Int)) = (j : Int) + 1 := by omega
+  have hb' : spanBackward name (pyBackFrom lines ((ce : Int) - 1)) 0 (k : Int) = (some (j : Int), 0, true) := by
+    simpa using hb
+  simp [getPlacement, isAutoOrSpan, getLine, lineNo, numOr1, hk0, hce, hb', bind, Except.bind, pure, Except.pure]
+  rw [hsz3]
+  have hj1 : ¬ ((j : Int) + 1 < 0) := by omega
+  have hj2 : ¬ ((j : Int) + 1 = 0) := by omega
+  simp only [hj1, if_false, hj2]
+  exact ⟨trivial, trivial⟩
+
+private theorem spanForward_nth (name : String) :
+    ∀ (seq : List (List String)) (k0 n j : Nat) (sz : Int), 1 ≤ n → nthName name seq k0 n = some j →
+      spanForward name seq ((k0 : Int) + 1) sz (n : Int) = ((j : Int) + 1, 0, true) := by
+  intro seq
+  induction seq with
+  | nil => intro k0 n j sz hn h; simp [nthName] at h
+  | cons l rest ih =>
+    intro k0 n j sz hn h
+    unfold nthName at h
+    unfold spanForward
+    by_cases hc : l.contains name = true
+    · simp only [hc, if_true] at h ⊢
+      by_cases h1 : n ≤ 1
+      · have hn1 : n = 1 := by omega
+        subst hn1
+        simp only [Nat.le_refl, if_true, Option.some.injEq] at h
+        subst h
+        simp
+      · simp only [h1, if_false] at h
+        have hne : ((n : Int) - 1 == 0) = false := by
+          have : (n : Int) - 1 ≠ 0 := by omega
+          simpa using this
+        simp only [hne, Bool.false_eq_true, if_false]
+        have hcast : ((n : Int) - 1) = ((n - 1 : Nat) : Int) := by omega
+        have hk : ((k0 : Int) + 1 + 1) = ((k0 + 1 : Nat) : Int) + 1 := by omega
+        rw [hcast, hk, ih (k0 + 1) (n - 1) j _ (by omega) h]
+    · simp only [hc, Bool.false_eq_true, if_false] at h ⊢
+      have hne : ((n : Int) == 0) = false := by
+        have : (n : Int) ≠ 0 := by omega
+        simpa using this
+      simp only [hne, Bool.false_eq_true, if_false]
+      have hk : ((k0 : Int) + 1 + 1) = ((k0 + 1 : Nat) : Int) + 1 := by omega
+      rw [hk, ih (k0 + 1) n j _ hn h]
+
+/-- `placement_names`, forward named span: `grid-column: s / span k name` with a definite start line (0-based index `c`):
+the end line is the `k`-th line called `name` after the start line (found at offset `j` in `lines[c+1:]`): the item
+occupies the `j + 1` tracks from `c`. -/
+theorem placement_span_named_forward (name : String) (lines : List (List String)) (k c j : Nat) (hk : 1 ≤ k)
+    (h : nthName name (pySliceFrom lines ((c : Int) + 1)) 0 k = some j) :
+    getPlacement (lineNo ((c : Int) + 1)) (.mk true (some (k : Int)) (some name)) lines =
+      .ok (some ((c : Int), (j : Int) + 1)) := by
+  have hf := spanForward_nth name _ 0 k j 0 hk h
+  have hf' : spanForward name (pySliceFrom lines ((c : Int) + 1)) 1 0 (k : Int) = ((j : Int) + 1, 0, true) := by
+    simpa using hf
+  have hk0 : ((k : Int) == 0) = false := by
+    have : (k : Int) ≠ 0 := by omega
+    simpa using this
+  have hj1 : ¬ ((j : Int) + 1 < 0) := by omega
+  have hj2 : ¬ ((j : Int) + 1 = 0) := by omega
+  simp [getPlacement, isAutoOrSpan, getLine, lineNo, numOr1, hk0, hf', hj1, hj2, bind, Except.bind, pure, Except.pure]
+
 /-- `placement_names`, areas: `grid-column: a` (both edges named after the area `a`), with the
 implicit names `a-start` on line `i` and `a-end` on a later line `j`: the item occupies the tracks
 `i … j − 1`. -/
@@ -329,5 +439,21 @@ example :
     let c : GContainer := { (default : GContainer) with justifyItems := .normal, alignItems := .normal }
     let r := itemRect c it 10 5 100 40
     (r.x, r.y, r.w, r.h) = (44, 32, 30, 10) := by decide +kernel
+
+-- placement_span_named_back: `[foo] [foo] [bar foo] []`, `span 2 foo / 4`: walking back from line index 2, the second
+-- `foo` line is one step back: tracks 1 … 2 (and the hypothesis is met)
+example :
+    let lines := [["foo"], ["foo"], ["bar", "foo"], []]
+    nthName "foo" (pyBackFrom lines 2) 0 2 = some 1 ∧
+    (getPlacement (.mk true (some 2) (some "foo")) (lineNo 4) lines).toOption = some (some (1, 2)) := by
+  decide +kernel
+
+-- placement_span_named_forward: `[] [foo] [] [foo] []`, `1 / span 2 foo`: the second `foo` line after line 1 is at
+-- offset 2 of `lines[1:]`: three tracks from 0
+example :
+    let lines := [[], ["foo"], [], ["foo"], []]
+    nthName "foo" (pySliceFrom lines 1) 0 2 = some 2 ∧
+    (getPlacement (lineNo 1) (.mk true (some 2) (some "foo")) lines).toOption = some (some (0, 3)) := by
+  decide +kernel
 
 end Wp.C12
